@@ -682,17 +682,24 @@ class QueryObjectDescriptor(CanBehaveLikeAVariable[T], ABC):
                 else:
                     yield v
 
-    def _unbound_conclusion_variables_(self, binding: Dict[int, HashedValue]) -> List[Variable]:
+    def _unbound_conclusion_variables_(self, binding: Dict[int, HashedValue]) -> List[CanBehaveLikeAVariable]:
         """
-        The variables with a domain that the conclusions to be drawn mention and the binding does not bind.
+        The variables (and flattened expressions) the conclusions to be drawn mention and the binding does not bind.
         """
         unbound = []
         if self._child_:
             for conclusion in self._child_._conclusion_:
                 for var in conclusion._unique_variables_:
                     var = var.value
-                    if (isinstance(var, Variable) and not isinstance(var, Literal) and var._id_ not in binding
-                            and var._domain_ and not var._is_inferred_ and var not in unbound):
+                    if var._id_ in binding or any(var is other for other in unbound):
+                        # (identity: == on expressions builds a comparison)
+                        continue
+                    if isinstance(var, Variable) and not isinstance(var, Literal) and not var._is_inferred_ \
+                            and (var._domain_ or not var._predicate_type_):
+                        # with a domain, or (no domain given) ranging over the registry of instances
+                        unbound.append(var)
+                    elif isinstance(var, Flatten):
+                        # one row per element
                         unbound.append(var)
         return unbound
 
